@@ -292,6 +292,16 @@ pub fn run_c12(ctx: &mut Ctx) {
             }
         }
     }
+    if ctx.first_shard() {
+        // one long pair (more than 2^20 matrix cells: another algorithm, a bounded table, rolling rows would show
+        // here): a text over {a, b, x, blank} and a copy in which some letters became blanks and some blanks letters
+        let n = 1030 + ctx.rng.random_range(0..20);
+        let a: String = (0..n).map(|i| if i % 11 == 5 { 'x' } else if i % 7 == 3 { ' ' } else if i % 2 == 0 { 'a' } else { 'b' }).collect();
+        let b: String = a.chars().enumerate().map(|(i, c)| if c == 'x' && i % 3 != 0 { ' ' } else if c == ' ' && i % 5 == 0 { 'b' } else { c }).collect::<String>() + "ab";
+        ctx.case("dist", &req(false, false, false, false, &a, &b));
+        ctx.case("dist", &req(false, false, true, true, &a, &b));
+        ctx.case("dist", &req(false, true, true, false, &a, &b));
+    }
     let n = ctx.budget(600, 40000);
     for i in 0..n {
         let a = small_str(ctx, if i % 200 == 17 { 150 } else if i % 10 == 0 { 14 } else { 6 });
